@@ -59,6 +59,19 @@ def run_impl(cases):
     orig_sleep = R.time.sleep
     R.time.sleep = lambda s: events.append(['sleep'])
     out = []
+    # one decorated function per (attempts, exceptions spec), reused for every case of that configuration: the contract is
+    # per call, so a budget / cache shared between calls of the same decorated function must not show
+    cur = {}
+    sentinel = ('R', 999999)
+
+    def f(*a, **k):
+        seq, objs, arglog = cur['seq'], cur['objs'], cur['arglog']
+        i = len(arglog)
+        events.append(['call', i]); arglog.append((a, k))
+        if i >= len(seq): return sentinel
+        if seq[i] == 'ret': return objs[i]
+        raise objs[i]
+    wrappers = {}
     try:
         for case in cases:
             x = case['x']; seq = x['kinds']; attempts = case['c']['attempts']
@@ -68,20 +81,16 @@ def run_impl(cases):
                              'foreign': lambda: Other(), 'base': lambda: BE()}[k]())
             del events[:]
             arglog = []
-            sentinel = ('R', 999999)
-
-            def f(*a, **k):
-                i = len(arglog)
-                events.append(['call', i]); arglog.append((a, k))
-                if i >= len(seq): return sentinel
-                if seq[i] == 'ret': return objs[i]
-                raise objs[i]
+            cur.update(seq=seq, objs=objs, arglog=arglog)
             A = (object(), object()); K = {'x': object()}
             try:
                 if x['form'] == 'func':
                     r = R.retry_func(f, *A, attempts=attempts, exceptions=specs[x['spec']], **K)
                 else:
-                    r = R.retry(attempts=attempts, exceptions=specs[x['spec']])(f)(*A, **K)
+                    key = (attempts, x['spec'])
+                    if key not in wrappers:
+                        wrappers[key] = R.retry(attempts=attempts, exceptions=specs[x['spec']])(f)
+                    r = wrappers[key](*A, **K)
                 if r is sentinel: res = ['ret', 999999]
                 elif r is None: res = ['retNone']
                 else:
